@@ -148,6 +148,7 @@ type Tr struct {
 	heapA         map[string]string // heap array term -> allocation counter when it was written
 	closureBindings []Val
 	callTexts     map[token.Pos]string
+	typeVars      map[string]types.Type // type variables of the generic contract being applied
 }
 
 // pure > 0: a Go function is being evaluated inside a specification (possibly under a quantifier):
